@@ -620,6 +620,12 @@ func (m *Manager) Close() error {
 		return nil // Already closed
 	}
 
+	// Wait for a flush that is in progress: it may be in the middle of a WAL
+	// rotation, where the log that still buffers acknowledged writes is no
+	// longer the current one and would be left unflushed.
+	m.flushMu.Lock()
+	defer m.flushMu.Unlock()
+
 	// Close the WAL using atomic access
 	currentWAL := m.getWAL()
 	if currentWAL != nil {
